@@ -19,6 +19,7 @@ from prompt_toolkit.filters import (
 from prompt_toolkit.key_binding.key_bindings import Binding
 from prompt_toolkit.key_binding.key_processor import KeyPressEvent
 from prompt_toolkit.keys import Keys
+from prompt_toolkit.search import SearchState
 from prompt_toolkit.selection import SelectionType
 
 from ..key_bindings import ConditionalKeyBindings, KeyBindings, KeyBindingsBase
@@ -386,23 +387,26 @@ def load_emacs_search_bindings() -> KeyBindingsBase:
         search.start_reverse_incremental_search
     )
 
+    def jump(event: E, search_state: SearchState) -> None:
+        # A negative repetition argument searches in the other direction;
+        # zero doesn't search at all. (`apply_search` requires a count > 0.)
+        count = event.arg
+        if count < 0:
+            search_state, count = ~search_state, -count
+        if count > 0:
+            event.current_buffer.apply_search(
+                search_state, include_current_position=False, count=count
+            )
+
     @handle("n", filter=is_read_only)
     def _jump_next(event: E) -> None:
         "Jump to next match."
-        event.current_buffer.apply_search(
-            event.app.current_search_state,
-            include_current_position=False,
-            count=event.arg,
-        )
+        jump(event, event.app.current_search_state)
 
     @handle("N", filter=is_read_only)
     def _jump_prev(event: E) -> None:
         "Jump to previous match."
-        event.current_buffer.apply_search(
-            ~event.app.current_search_state,
-            include_current_position=False,
-            count=event.arg,
-        )
+        jump(event, ~event.app.current_search_state)
 
     return ConditionalKeyBindings(key_bindings, emacs_mode)
 
